@@ -260,7 +260,7 @@ for _sn, _se in _STR_SRC.items():
 # near-misses of the typing rules: programs the pinned compiler rejects (then they are only counted) but that a
 # relaxed rule would accept — if accepted they must still be sound.
 CATALOGUE += [
-    ("alias_map_index", "type Stock map[str, int]\nst: Stock = map[str, int] { \"apples\": 3 }\nr = st[\"apples\"]\n" + T("r") + "st[\"pears\"] = 4\nst[\"apples\"] += 1\n" + T("st.len()")),
+    ("alias_map_index", "type Stock map[str,int]\nst: Stock = map[str, int] { \"apples\": 3 }\nr = st[\"apples\"]\n" + T("r") + "st[\"pears\"] = 4\nst[\"apples\"] += 1\n" + T("st.len()")),
     ("alias_list_index", "type Li [int...]\nli: Li = [5, 6]\nr = li[1]\n" + T("r") + "li[0] = 9\nli[0] += 1\n" + T("li")),
     ("alias_str_index", "type Sa str\nsa: Sa = \"héllo\"\nr = sa[1]\n" + T("r") + T("sa.len()")),
     ("alias_bool_condition", "type Fl bool\nfl: Fl = true\nif fl {\n q = 1\n}\n" + T("!fl")),
